@@ -44,11 +44,12 @@ class StructV(object):
 
 class SnapV(object):
     """logical snapshot of a struct (fields are scalars, SeqV or SnapV)"""
-    __slots__ = ('tid', 'f')
+    __slots__ = ('tid', 'f', 'addr')
 
-    def __init__(self, tid, fields):
+    def __init__(self, tid, fields, addr=None):
         self.tid = tid
         self.f = fields
+        self.addr = addr        # PtrV the snapshot was taken through (lets a spec function body write &x.f)
 
 
 class ArrV(object):
